@@ -196,6 +196,11 @@ func ExtractSerializedContainer(data []byte) (int, []byte, error) {
 	_, err := validateSerializedContainer(data)
 	if err == nil {
 		length := binary.LittleEndian.Uint64(data[len(TagBegin) : len(TagBegin)+SerializedContainerLengthSize])
+		// the declared length comes from the data itself: it must cover the header and fit into the data,
+		// otherwise callers would advance by a bogus (zero, negative or too large) number of bytes
+		if length < uint64(SerializedContainerMinSize) || length > uint64(len(data)) {
+			return 0, nil, ErrIncorrectSerializedContainer
+		}
 		return int(length), data, nil
 	}
 
